@@ -40,6 +40,6 @@ json.dump(m,open(sys.argv[2],"w"),indent=1)
 PY
   echo "  stored in $D"
 else
-  echo "  NOT CONFIRMED; logs:"; tail -5 /tmp/mt/c1.$$ /tmp/mt/c2.$$ /tmp/mt/c3.$$ /tmp/mt/c4.$$ | cut -c1-200
+  echo "  NOT CONFIRMED; logs:"; tail -n 5 /tmp/mt/c1.$$ /tmp/mt/c2.$$ /tmp/mt/c3.$$ /tmp/mt/c4.$$ | cut -c1-200
 fi
 rm -f /tmp/mt/c?.$$ /tmp/mt/patch.$$.diff
